@@ -231,7 +231,11 @@ func (c *Cache) cachedCookieJar(sessionID string) (jar http.CookieJar, err error
 			PublicSuffixList: publicsuffix.List,
 		}
 		jar, err = cookiejar.New(&options)
-		c.addJarToCache(sessionID, jar)
+		if sessionID != "" {
+			// A request without a session gets an empty jar of its own; caching that
+			// would take one of the slots away from the actual sessions.
+			c.addJarToCache(sessionID, jar)
+		}
 		return jar, err
 	}
 
